@@ -214,11 +214,11 @@ def sparse_callers_ok(fb):
         a, b = c.args[0], c.args[1]
         sa, sb = direct_source(f, a), direct_source(f, b)
         # the two halves of one unzip()
-        if sa and sb and sa[0] is sb[0] and (sa[0].callee or '').endswith('::unzip') and sa[1] != sb[1]:
+        if sa and sb and sa[0].bb == sb[0].bb and (sa[0].callee or '').endswith('::unzip') and sa[1] != sb[1]:
             continue
         # both halves of one into_logits_indices() whose vectors are not resized in between
         resized = [x for x in f.calls() if re.search(r'Vec<T, A>::(push|pop|truncate|retain|extend|insert|remove|swap_remove|clear|drain|resize|append|dedup\w*|split_off)$|::extend$', x.callee or '')]
-        if sa and sb and sa[0] is sb[0] and (sa[0].callee or '').endswith('::into_logits_indices') and sa[1] != sb[1] and not resized:
+        if sa and sb and sa[0].bb == sb[0].bb and (sa[0].callee or '').endswith('::into_logits_indices') and sa[1] != sb[1] and not resized:
             continue
         bad.append(c.loc())
     if bad:
